@@ -213,7 +213,7 @@ def insert_at_random(rng, lines, new, n=1):
     return out
 
 
-def multichain(rng, nchains=None, ter="TER   \n", oxt_prob=0.5, chains="ABCDEFG ", separation=60.0):
+def multichain(rng, nchains=None, ter="TER   \n", oxt_prob=0.5, chains="ABCDEFGab2 ", separation=60.0):
     """a multi-chain structure from library fragments, chains placed `separation` A apart"""
     n = nchains or rng.randint(2, 3)
     out = []
